@@ -705,7 +705,8 @@ func (f Function) lambdaPrint(ps *ast.PrintState, out *strings.Builder) string {
 	}
 	needBraces := len(f.Body.Statements) != 1 ||
 		f.Body.Statements[0].Value().Type() == token.LBRACE ||
-		f.Body.Statements[0].Value().Type() == token.LAMBDA
+		f.Body.Statements[0].Value().Type() == token.LAMBDA ||
+		f.Body.Statements[0].Value().Type() == token.RETURN // x=>return x is not an expression.
 	if !needBraces {
 		if infix, ok := f.Body.Statements[0].(*ast.InfixExpression); ok {
 			// => binds tighter than && || : = so x=>a&&b would read back as (x=>a)&&b.
